@@ -25,7 +25,7 @@ func init() {
 var authEndpoints = []string{"vipnode_connect", "vipnode_update", "vipnode_peer", "vipnode_host", "vipnode_client", "pool_addNode", "pool_withdraw"}
 
 var forgeKinds = []string{"valid", "method", "identity", "otherkey", "nonce+1", "nonce-1", "param", "sigflip", "empty", "short",
-	"badencoding", "truncated", "style", "stale", "replay", "oldformat"}
+	"badencoding", "truncated", "style", "stale", "replay", "oldformat", "respell"}
 
 // AReq is one signed request as sent, plus how its signature was made.
 type AReq struct {
@@ -299,6 +299,13 @@ func (a *authWorld) send(rng *rand.Rand, endpoint, forge string) (*AReq, string,
 			}
 		}
 	}
+	if forge == "respell" {
+		// the signed request is sent under another spelling of the same identity (hex letter case):
+		// a different identity string, which the signature does not cover
+		id = respell(id)
+		idName = idName + "/respelled"
+		q.Identity = idName
+	}
 	q.Signer, q.Nonce = sKey, nonce
 	if sMethod != endpoint || sIDName != idName || sNonce != nonce || renderArgs(sArgs) != renderArgs(args) || sStyleWallet != wallet {
 		q.SignedAs = fmt.Sprintf("%s %s %d %s wallet-style=%v", sMethod, sIDName, sNonce, renderArgs(sArgs), sStyleWallet)
@@ -359,6 +366,18 @@ func (a *authWorld) send(rng *rand.Rand, endpoint, forge string) (*AReq, string,
 	return q, coq, mon
 }
 
+// respell changes the letter case of the hex digits of an identity (keeping a 0x prefix).
+func respell(id string) string {
+	pre, body := "", id
+	if strings.HasPrefix(id, "0x") {
+		pre, body = "0x", id[2:]
+	}
+	if l := strings.ToLower(body); l != body {
+		return pre + l
+	}
+	return pre + strings.ToUpper(body)
+}
+
 func indexOf(l []string, s string) int {
 	for i, x := range l {
 		if x == s {
@@ -417,7 +436,7 @@ func runC06(ctx *Ctx) {
 		var reqs []*AReq
 		var mon []string
 		steps := 10 + rng.Intn(10)
-		refusals := []string{"sigflip", "otherkey", "empty", "short", "badencoding", "truncated", "stale", "replay", "identity", "method", "param", "nonce+1"}
+		refusals := []string{"sigflip", "otherkey", "empty", "short", "badencoding", "truncated", "stale", "replay", "identity", "method", "param", "nonce+1", "respell"}
 		for k := 0; k < steps; k++ {
 			ep := authEndpoints[rng.Intn(len(authEndpoints))]
 			forge := "valid"
